@@ -475,3 +475,70 @@ for _prop in ('C04', 'C13'):
             cases=[Case('afterwards the cell AT the address (the address a name stands for) holds the value - also when the name keeps its own copy of the cell, as in an extracted or restored model; nothing else changes',
                         lambda *a: True, setcell_ens(_how))],
             call=setcell_call(False, _how), native_call=setcell_call(True, _how), bounded_domain_cap=60))
+
+
+# ---- C06: the length bound also holds when the failure travels through a REAL function node (lazy IF / eager SUM) -------------------------
+def fn_chain_call(native, fname):
+    """F1's tree is a real FunctionNode: IF(TRUE, <next cell>, 0) - the next cell is evaluated INSIDE the function, through a thunk -
+    or SUM(<next cell>, 1); the next cell's evaluation fails with a report `inner` (symbolic text)"""
+    def call(it, fn, inner):
+        from xlcalculator import evaluator, model as Mo, xltypes, ast_nodes, tokenizer
+        from xlcalculator.xlfunctions import logical, math as xmath
+
+        class Obj:
+            pass
+
+        def fail(ctx=None):
+            e = RuntimeError('<sym>' if is_sym(inner) else inner)
+            if is_sym(inner):
+                e._pyvc_msg = inner
+            raise (RaiseEx(e) if not native else e)
+        if native:
+            nxt = Obj()
+            nxt.eval = lambda ctx: fail(ctx)
+        else:
+            nxt = Stub('next-cell', eval=ModelFn(lambda it_, ctx: fail(ctx), 'next.eval'))
+        node = ast_nodes.FunctionNode(tokenizer.f_token(fname, 'function', 'start'))
+        lit = lambda v, sub: ast_nodes.OperandNode(tokenizer.f_token(v, 'operand', sub))
+        node.args = [lit('TRUE', 'logical'), nxt, lit('0', 'number')] if fname == 'IF' else [nxt, lit('1', 'number')]
+        text = '=IF(TRUE,G1,0)' if fname == 'IF' else '=SUM(G1,1)'
+        f = xltypes.XLFormula(text, 'Sheet1')
+        f.ast = node
+        m = Mo.Model()
+        cF = xltypes.XLCell(F_ADDR, None)
+        cF.formula, cF.value = f, 'STALE-F'
+        m.cells = {F_ADDR: cF}
+        ev = evaluator.Evaluator(m, {'IF': logical.IF, 'SUM': xmath.SUM})
+        exc = None
+        try:
+            if native:
+                ev.evaluate(F_ADDR)
+            else:
+                it.call(evaluator.Evaluator.evaluate, [ev, F_ADDR], {})
+        except RaiseEx as r:
+            exc = r.exc
+        except Exception as ex:      # noqa
+            exc = ex
+        return dict(exc=exc, text=text, F_value=cF.value, stack=list(getattr(ev, '_evaluating', [])))
+    if native:
+        return lambda fn, inner: call(None, fn, inner)
+    return call
+
+
+def fn_chain_ens(inner, out):
+    if out.kind != 'ret':
+        return False
+    s = out.value
+    if not isinstance(s['exc'], RuntimeError) or s['F_value'] != 'STALE-F' or s['stack']:
+        return False
+    return _msg_len(s['exc']) <= S.length(inner) + len(s['text']) + len(F_ADDR) + 60
+
+
+QUOTES = "it's a 'quoted' \"report\" " + "'" * 70
+for _fname in ('IF', 'SUM'):
+    UNITS.append(Unit(ghost=True, cross_key=lambda s: (type(s['exc']).__name__, len(str(s['exc']))) if isinstance(s, dict) else repr(s),
+        id=f'C06/evaluator.Evaluator.evaluate/message_growth_through[{_fname}]', target='xlcalculator.evaluator:Evaluator.evaluate', prop='C06',
+        inputs=[('inner', Prim('str', domain=['x', 'Problem evaluating cell Sheet1!G1 formula =H1+1: ValueError("q\'q")', QUOTES]))],
+        cases=[Case('a report that passes through a function call (lazy or eager) still grows by at most len(address) + len(formula) + 60 characters per level',
+                    lambda i: True, fn_chain_ens)],
+        call=fn_chain_call(False, _fname), native_call=fn_chain_call(True, _fname)))
